@@ -234,6 +234,23 @@ def _optimise_operator(op):
 
     get_duplicate_keys(key_list_node, id_dic)
 
+    # Repeated subtrees that contain other repeated subtrees need to be
+    # treated (and thereby inserted) first
+    heights = {}
+
+    def height(op):
+        if id(op) not in heights:
+            if isinstance(op, _OpChain):
+                hh = max((height(oo) for oo in op._ops if isnode(oo)), default=0)
+            elif isnode(op):
+                hh = 1 + max(height(op._op1), height(op._op2))
+            else:
+                hh = 0
+            heights[id(op)] = hh
+        return heights[id(op)]
+
+    key_list_node.sort(key=lambda key: -height(nodes[id_dic[key][0]][0]))
+
     for key in key_list_node:
         same_node[key] = [nodes[id_dic[key][0]][0],
                           FieldAdapter(nodes[id_dic[key][0]][0].target, next(prepend_id) + str(key))]
